@@ -21,7 +21,7 @@ from . import z as Z
 from .engine import Engine, HERE, VENV_PY
 from .source import REPO
 
-QUICK_TIMEOUT_MS = 10000
+QUICK_TIMEOUT_MS = 20000
 THOROUGH_TIMEOUT_MS = 120000
 
 
